@@ -3,7 +3,7 @@
 use vstd::prelude::*;
 use vstd::std_specs::iter::IteratorSpec;
 use vstd::std_specs::ops::*;
-use core::ops::{Add, Sub, Rem};
+use core::ops::{Add, Sub, Rem, Div, Mul};
 verus! {
 //@ include prelude/core.rs
 //@ include prelude/std_specs.rs
@@ -110,6 +110,104 @@ impl Rem<&BigUint> for BigUint {
     {
         // forward to ref-ref
         Rem::rem(&self, other)
+    }
+//@ end
+}
+impl AddSpecImpl<BigUint> for &BigUint {
+    open spec fn obeys_add_spec() -> bool { false }
+    open spec fn add_req(self, rhs: BigUint) -> bool { self.wf() && rhs.wf() }
+    open spec fn add_spec(self, rhs: BigUint) -> BigUint { arbitrary() }
+}
+impl Add<BigUint> for &BigUint {
+    type Output = BigUint;
+//@ extract src/macros.rs :: macro_rules! forward_ref_val_binop_commutative :: arm 0 :: fn $method subst=$imp=>Add;$res=>BigUint;$method=>add props=C10,C01 label=add_ref_val
+    fn add(self, other: BigUint) -> /*+*/(r: /*-*/BigUint/*+*/)/*-*/
+//+{
+        ensures r.wf(), r.v() == self.v() + other.v()
+//+}
+    {
+        // reverse, forward to val-ref
+        Add::add(other, self)
+    }
+//@ end
+}
+
+// ---- Div<BigUint> for &BigUint -> Div<&BigUint> for &BigUint
+impl DivSpecImpl<&BigUint> for &BigUint {
+    open spec fn obeys_div_spec() -> bool { false }
+    open spec fn div_req(self, rhs: &BigUint) -> bool { self.wf() && rhs.wf() && (!mp() ==> rhs.v() != 0) }
+    open spec fn div_spec(self, rhs: &BigUint) -> BigUint { arbitrary() }
+}
+impl Div<&BigUint> for &BigUint {
+    type Output = BigUint;
+//@ stub u_divapi/div_ref_ref
+}
+impl DivSpecImpl<BigUint> for &BigUint {
+    open spec fn obeys_div_spec() -> bool { false }
+    open spec fn div_req(self, rhs: BigUint) -> bool { self.wf() && rhs.wf() && (!mp() ==> rhs.v() != 0) }
+    open spec fn div_spec(self, rhs: BigUint) -> BigUint { arbitrary() }
+}
+impl Div<BigUint> for &BigUint {
+    type Output = BigUint;
+//@ extract src/macros.rs :: macro_rules! forward_ref_val_binop :: arm 0 :: fn $method subst=$imp=>Div;$res=>BigUint;$method=>div props=C10,C03,C14 label=div_ref_val
+    fn div(self, other: BigUint) -> /*+*/(r: /*-*/BigUint/*+*/)/*-*/
+//+{
+        ensures mp() ==> other.v() != 0, r.wf(), exists|m: nat| udiv_ok(self.v(), other.v(), r.v(), m)
+//+}
+    {
+        // forward to ref-ref
+        Div::div(self, &other)
+    }
+//@ end
+}
+
+// ---- u32 * &BigUint -> u32 * BigUint -> BigUint * u32
+impl BigUint {
+//@ stub u_core/clone
+}
+impl MulSpecImpl<u32> for BigUint {
+    open spec fn obeys_mul_spec() -> bool { false }
+    open spec fn mul_req(self, rhs: u32) -> bool { self.wf() }
+    open spec fn mul_spec(self, rhs: u32) -> BigUint { arbitrary() }
+}
+impl Mul<u32> for BigUint {
+    type Output = BigUint;
+//@ stub u_scalar/mul_u32
+}
+impl MulSpecImpl<BigUint> for u32 {
+    open spec fn obeys_mul_spec() -> bool { false }
+    open spec fn mul_req(self, rhs: BigUint) -> bool { rhs.wf() }
+    open spec fn mul_spec(self, rhs: BigUint) -> BigUint { arbitrary() }
+}
+impl Mul<BigUint> for u32 {
+    type Output = BigUint;
+//@ extract src/macros.rs :: macro_rules! forward_scalar_val_val_binop_commutative :: arm 0 :: fn $method subst=$imp=>Mul;$res=>BigUint;$method=>mul;$scalar=>u32 props=C10,C02 label=u32_mul_val
+    fn mul(self, other: BigUint) -> /*+*/(r: /*-*/BigUint/*+*/)/*-*/
+//+{
+        ensures r.wf(), r.v() == (self as nat) * other.v()
+//+}
+    {
+//+{
+        proof { assert((self as nat) * other.v() == other.v() * (self as nat)) by (nonlinear_arith); }
+//+}
+        Mul::mul(other, self)
+    }
+//@ end
+}
+impl MulSpecImpl<&BigUint> for u32 {
+    open spec fn obeys_mul_spec() -> bool { false }
+    open spec fn mul_req(self, rhs: &BigUint) -> bool { rhs.wf() }
+    open spec fn mul_spec(self, rhs: &BigUint) -> BigUint { arbitrary() }
+}
+impl Mul<&BigUint> for u32 {
+    type Output = BigUint;
+//@ extract src/macros.rs :: macro_rules! forward_scalar_ref_val_binop_to_val_val :: arm 0 :: impl $imp<&$res> for $scalar :: fn $method subst=$imp=>Mul;$res=>BigUint;$method=>mul;$scalar=>u32 props=C10,C02 label=u32_mul_ref
+    fn mul(self, other: &BigUint) -> /*+*/(r: /*-*/BigUint/*+*/)/*-*/
+//+{
+        ensures r.wf(), r.v() == (self as nat) * other.v()
+//+}
+    {
+        Mul::mul(self, other.clone())
     }
 //@ end
 }
